@@ -10,6 +10,9 @@ over the distinct (format, type) pairs that occur in gs1_ai.dat:
  C16.length     _max_length() is defined on every registered pair (extracted expression evaluated per pair);
  C16.padding    _pad_value() pads with '0' only values whose decoder ignores leading zeros (int, decimal)
                 and with blanks only values whose decoder strips blanks (decided per registered pair);
+ C16.fixed-width  identifiers without fnc1= (fixed path: not padded, not separated) have a type and format whose encoder
+                branch always yields the full width (never int, N..k decimals or zero-dropping dates);
+ C16.validator  an identifier handed to another module's validate() has a registered length that module can accept;
  C16.framing    encode(): every variable-length value but the last is followed unconditionally by the
                 separator (or padded to its maximum length when there is none); fixed-length values come first;
  C16.value      info(): the text handed to _decode_value() is a slice of the element string (not the
@@ -39,9 +42,64 @@ def branches_on(fn, var):
     return out
 
 
+def validators_fit(rep):
+    """C16.validator: the values of an application identifier that is handed to another module's validate() (the
+    _ai_validators table) can have a length that module accepts at all: otherwise the identifier can neither be
+    decoded nor encoded."""
+    from ..strabs.run import analyse_validate
+    path = os.path.join(REPO, FILE)
+    with open(path, encoding='utf-8') as fh:
+        tree = ast.parse(fh.read())
+    table = None
+    for st in tree.body:
+        if isinstance(st, ast.Assign) and len(st.targets) == 1 and isinstance(st.targets[0], ast.Name) and st.targets[0].id == '_ai_validators':
+            try:
+                table = ast.literal_eval(st.value)
+            except (ValueError, SyntaxError):
+                raise AnalysisError('%s: _ai_validators is not a literal table' % FILE)
+            line = st.lineno
+    if table is None:
+        raise AnalysisError('%s: _ai_validators vanished' % FILE)
+    reg = Registry(ReaderModel(), os.path.join(REPO, 'stdnum', 'gs1_ai.dat'))
+    res = analyse_validate()
+    for ai, modname in sorted(table.items()):
+        ents = [e for e in reg.entries if e.depth == 0 and len(ai) == e.length and e.low <= ai <= e.high]
+        if not ents:
+            rep.fail('C16.validator', FILE, '_ai_validators', '%r: %r' % (ai, modname), line, 'application identifier %s has a validator but is not in gs1_ai.dat' % ai)
+            continue
+        f = ents[0].props.get('format', '')
+        lo = hi = 0
+        okf = True
+        for part in f.split('+'):
+            m_ = re.match(r'^[NXY]([0-9]+)$', part)
+            v_ = re.match(r'^[NXY]\.\.([0-9]+)$', part)
+            if m_:
+                lo += int(m_.group(1))
+                hi += int(m_.group(1))
+            elif v_:
+                lo += 1
+                hi += int(v_.group(1))
+            else:
+                okf = False
+        if modname not in res or not okf:
+            rep.undecide('C16.validator', '%s %s' % (FILE, ai), 'format %r or module %s not analysable' % (f, modname))
+            continue
+        lens = [(x['lo'], x['hi']) for x in res[modname]['returns'] if x['kind'] == 'str']
+        fits = any(a <= hi and (b is None or b >= lo) for a, b in lens)
+        rep.check(fits, 'C16.validator', FILE, '_ai_validators', '%r: %r' % (ai, modname), line,
+                  'values of application identifier %s have %s characters (format %s) but %s.validate() accepts only lengths %s: every element string with '
+                  'this identifier is rejected' % (ai, lo if lo == hi else '%d..%d' % (lo, hi), f, modname.replace('stdnum.', ''),
+                                                  sorted({a if a == b else '%s..%s' % (a, b) for a, b in lens}, key=str)),
+                  what='AI %s (%s) fits %s' % (ai, f, modname))
+    return len(table)
+
+
 def check(tier):
     rep = new_report(tier)
     analyse(rep)
+    nv = validators_fit(rep)
+    if nv < 3:
+        rep.error('C16.validator: %d validator entries found, 3 confirmed on the reference tree' % nv)
     rep.expect_at_least('C16.length', 40, '(format, type) pairs')
     rep.not_decided = ['equality of the decoded identifier-to-value mapping after a round trip (value arithmetic of decimals, dates with day 00)',
                        'parentheses handling (compact() deletes them before info())']
@@ -121,6 +179,27 @@ def analyse(rep):
                       'and the decoder reads the digits with the wrong layout' % (f, sorted(enc_date_fmts)), what='date format %s has an encoder branch' % f)
     rep.check(pair_fmts_enc <= pair_fmts_dec, 'C16.date', FILE, '_decode_value', 'pair formats', dec.lineno,
               'formats encoded from a pair of dates %s are not all decoded as a pair %s' % (sorted(pair_fmts_enc), sorted(pair_fmts_dec)))
+    # --- one reading of two-digit years: the codecs go through strptime/strftime('%y...') (pivot 69 -> 1969, 68 -> 2068); a branch
+    #     that adds a fixed century decodes the years 69..99 differently from what the other branches and the encoder write
+    pivot, fixedc = [], []
+    for fnode in (dec, enc):
+        for n in ast.walk(fnode):
+            if isinstance(n, ast.Call) and isinstance(n.func, ast.Attribute) and n.func.attr in ('strptime', 'strftime'):
+                fm = [a.value for a in n.args if isinstance(a, ast.Constant) and isinstance(a.value, str)]
+                if any('%y' in x for x in fm):
+                    pivot.append(n)
+            if isinstance(n, ast.BinOp) and isinstance(n.op, ast.Add):
+                for c_, o_ in ((n.left, n.right), (n.right, n.left)):
+                    if isinstance(c_, ast.Constant) and c_.value in (1900, 2000) and isinstance(o_, ast.Call) and src(o_.func) == 'int':
+                        fixedc.append(n)
+    for n in fixedc:
+        rep.fail('C16.date', FILE, '_decode_value', src(n), n.lineno,
+                 'a two-digit year is read as %s while %d other place(s) of the date codec use %%y (69..99 mean 1969..1999): a date written by '
+                 'encode()/validate() is read back one century off' % (src(n), len(pivot)))
+    if not fixedc:
+        rep.ok('C16.date', '%s date codec' % FILE, 'two-digit years are read and written through %%y in all %d places' % len(pivot))
+    if len(pivot) < 5:
+        rep.error('C16.date: only %d strptime/strftime(%%y) sites found in the date codec, 5 confirmed on the reference tree' % len(pivot))
     # --- decimal formats
     for (f, t), e in sorted(pairs.items()):
         if t == 'decimal':
@@ -180,6 +259,26 @@ def analyse(rep):
         rep.check(zero == tolerant, 'C16.padding', reg.rel, e.rng, 'format="%s" type="%s"' % (f, t), e.line,
                   'values of this identifier are padded with %s but decoded by %s: a padded value decodes to a different value'
                   % ("'0'" if zero else 'blanks', 'int()/Decimal()' if tolerant else 'str.strip()'), what='%s/%s padded with %s' % (f, t, "'0'" if zero else 'blanks'))
+    # --- identifiers without fnc1= take the fixed path of encode(): AI + encoded value, neither padded nor separated, and info()
+    #     reads exactly _max_length() characters back; the encoder branch of their type must always yield that many characters
+    nfixed = 0
+    for e in reg.entries:
+        f, t = e.props.get('format'), e.props.get('type')
+        if f is None or t is None or e.props.get('fnc1'):
+            continue
+        nfixed += 1
+        if t == 'int':
+            okf, why = False, 'an int value is written as str(value), without its leading zeros'
+        elif t == 'decimal':
+            okf, why = re.match(r'^(N3\+)?N[0-9]+$', f) is not None, 'a decimal of variable length (N..k) is not right-aligned'
+        elif t == 'date':
+            okf, why = f in ('N6', 'N10'), 'this date format drops trailing zero fields'
+        else:
+            okf, why = re.match(r'^[NXY][0-9]+(\+[NXY][0-9]+)*$', f) is not None, 'the format is of variable length'
+        rep.check(okf, 'C16.fixed-width', reg.rel, e.rng, 'format="%s" type="%s" without fnc1' % (f, t), e.line,
+                  'application identifier %s is emitted on the fixed-length path (no fnc1=), but %s: the element is shorter than the %s characters info() '
+                  'reads back, so the following identifier is swallowed' % (e.rng, why, f), what='%s: %s/%s always full width' % (e.rng, f, t))
+    rep.unit('identifiers on the fixed-length path', nfixed)
     # --- framing in encode()
     encf = funcs['encode']
     ret = [n for n in ast.walk(encf) if isinstance(n, ast.Return) and n.value is not None]
